@@ -189,7 +189,7 @@ def domEV (c : Ctx) (x : EV) : Bool :=
   | .nilptr _ => false
   | .uptr _ _ => true
   | .ptr _ e => domEV (if c == .elem then .elem else .ptr) e
-  | .iface e => if c == .top then domEV .top e else isGoodKey e      -- Kind Interface: only a primitive gets through
+  | .iface e => if c == .top then domEV .top e else false           -- an interface inside a slice or behind a pointer is outside
   | .inil => c == .top
   | .func _ _ => c != .ptr
   | .chan _ _ => c == .top
@@ -218,13 +218,20 @@ def domFields (fs : List Fld) (vs : List EV) : Bool :=
 termination_by structural vs
 end
 
+/-- a leaf that `reflect` cannot tell from a Stack / Condition handle: a struct whose only field is unexported
+(residual defect R-C05-2: `valuesEqual` takes it for equal to any Stack or Condition on its right) -/
+def handleLike (e : EV) : Bool :=
+  match strip e with
+  | some (.struct _ [f] _) => !f.exported
+  | _ => false
+
 mutual
 /-- trees the property speaks about: initialised stacks and conditions in default mode (no equality policy),
 any derivative form, any operator (or none), leaves in `domEV` -/
 def inDomain (a : Val) : Bool :=
   match a with
   | .nil => true
-  | .leaf l => domEV .top l.toEV
+  | .leaf l => domEV .top l.toEV && !handleLike l.toEV
   | .stk _ c xs => c.eqf.isNone && [Gen.kind_and, Gen.kind_or, Gen.kind_not, Gen.kind_list, Gen.kind_basic].contains c.kind && inDomainL xs
   | .cnd _ c _ _ ex => c.eqf.isNone && c.kind == Gen.kind_cond && inDomain ex
   | .zstk _ => false
